@@ -42,7 +42,11 @@ C10_SCN = [dict(file="scenarios/token_F6.ndjson", cfg="users=3,stake=40," + BASE
                 cfg="users=3,stake=40," + BASE + ",regin=maa,regout=mbb,regrn=2,regrd=1"),
            dict(file="scenarios/token_cover_c10.ndjson", cfg=C10_GEN_CFG),
            dict(file="scenarios/token_cover_swap.ndjson",
-                cfg="users=3,stake=40," + BASE + ",regin=maa,regout=mbb,regrn=1,regrd=2")]
+                cfg="users=3,stake=40," + BASE + ",regin=maa,regout=mbb,regrn=1,regrd=2"),
+           # one name as symbol of one token and min unit of another: conversions, the hook
+           # and the burned side of the fee swap must resolve by min unit
+           dict(file="scenarios/token_namespace_erc.ndjson",
+                cfg="users=3,stake=40," + BASE + ",regin=maa,regout=mbb,regrn=1,regrd=1")]
 
 # histories recorded (VERIF_RECORD_DIR) for the cross-module checks C11 / C12; the
 # random driver draws its own configuration; while recording it neither injects the
